@@ -74,6 +74,10 @@ class Delegation:
         self.pool_id = pool_id
         if aformat != DelegationFormat.SinglePool:
             assert pool_id is not None
+            if pool_id == ABCPropertyGraphConstants.SINGLE_POOL_NAME:
+                # on the wire this name marks a single-resource delegation, a pool
+                # carrying it would silently come back as one
+                raise DelegationException(msg=f"Pool id '{pool_id}' is reserved and cannot be used to name a pool")
 
     def get_delegation_type(self) -> DelegationType:
         return self.type
